@@ -233,6 +233,27 @@ pub fn minimise(ctx: &mut Ctx, plan: &Plan, class: &str, step: usize, earlier: O
         }
     }
 
+    // 1b. a hang: trials are expensive (each waits for the watchdog), so use a short watchdog
+    // while shrinking and a small budget; the final verification uses the full limit again
+    if class == "hang" {
+        let single = Plan::single(target.clone());
+        let hangs = |ctx: &mut Ctx, p: &Plan| -> bool {
+            match ctx.run_child(p, 5) {
+                Some(log) => has_class(&log, "hang"),
+                None => false,
+            }
+        };
+        if hangs(ctx, &single) {
+            let mut test = |r: &Request| hangs(ctx, &Plan::single(r.clone()));
+            let small = shrink_request(&target, &mut test, 40);
+            return Minimised {
+                plan: Plan::single(small),
+                trials: ctx.trials,
+                in_process: false,
+            };
+        }
+    }
+
     // 2. general path: cut to the prefix, then delta-debug the steps in child processes
     let mut cur = Plan {
         reqs: plan.reqs.clone(),
